@@ -386,6 +386,10 @@ def render_vmodule(case, cx):
                 out.append(pad + "{")
                 out += stmts(it["body"], ind + 1)
                 out.append(pad + "}")
+            elif k == "vueimport":
+                imp, loc = it["names"]
+                out.append(pad + (f"import {{ {imp} }} from 'vue';" if imp == loc else f"import {{ {imp} as {loc} }} from 'vue';")
+                           + f" $out.{fresh('i')} = typeof {loc};")
             elif k == "classfield":
                 g = fresh("K")
                 out.append(pad + f"class {g} {{ f = {site_expr()}; }} new {g}();")
